@@ -135,14 +135,187 @@ def r18_2(F, R, tier):
             have.append(e)
     if len(have) < 3:
         raise AnchorError("R18.2: entry points missing: %s" % (set(entries) - set(have)))
-    kinds = ("K1", "K2") if tier == "quick" else ("K1", "K2", "K3", "K4")
-    run_pps(F, R, "R18.2", have, kinds, {"boxworks.lib", "common.lib"}, crate_scope={"boxworks.lib"},
-            armed=lambda fn, s: s.kind in ("K1", "K2"), fn_filter=lambda fn: "boxworks::lang::" in fn.name or "boxworks::ds::" in fn.name,
+    kinds = ("K1", "K2", "K3", "K4")
+    run_pps(F, R, "R18.2", have, kinds, {"boxworks.lib", "common.lib"}, crate_scope={"boxworks.lib", "common.lib"},
+            armed=lambda fn, s: True, fn_filter=lambda fn: "boxworks::lang::" in fn.name or "boxworks::ds::" in fn.name or fn.crate == "common.lib",
             floor_fns=80, floor_sites=5, what=": arbitrary text must give a list or located errors")
+
+
+def r18_3(F, R):
+    from ..facts import callee_name
+    from ..dataflow import op_place
+    from ..pps import Discharger
+    R.rule("R18.3", "string escapes: reader and printer agree on the range. The printer escapes through char::escape_debug, which writes `\\u{..}` with up "
+                    "to six hex digits (<= 10FFFF); in the lexer's `\\u{` loop the accumulator may only be rejected by char::from_u32 / checked arithmetic — "
+                    "a comparison of the accumulator with a constant below 0x10FFF (the largest value before the sixth digit) rejects characters the "
+                    "printer emits")
+    fn = [f for f in F.fns.values() if strip_generics(f.name) == "<boxworks::lang::lexer::Lexer as core::iter::traits::iterator::Iterator>::next"]
+    if len(fn) != 1:
+        raise AnchorError("R18.3: Lexer::next: %d matches" % len(fn))
+    fn = fn[0]
+    D = Discharger(F, fn)
+    # the accumulator: a u32 local multiplied by 16 (raw or checked)
+    acc = set()
+    from_u32 = 0
+    digit16 = 0
+    fns = [fn] + [F.fns[c] for c in F.closures_of(fn.id)]
+    for g in fns:
+        for bi, b in enumerate(g.blocks):
+            for st in b["s"]:
+                if st["k"] == "=" and st["rv"]["k"] == "bin" and st["rv"]["op"].replace("WithOverflow", "") == "Mul":
+                    for x, y in ((st["rv"]["a"], st["rv"]["b"]), (st["rv"]["b"], st["rv"]["a"])):
+                        if y.get("c", {}).get("int") == 16 and g is fn:
+                            s = D.src_local(x)
+                            if s is not None and not s["p"]:
+                                acc.add(s["l"])
+            t = b["t"]
+            if t["k"] == "call":
+                n = strip_generics(callee_name(t) or "")
+                if n.endswith("::checked_mul") and len(t["args"]) == 2 and t["args"][1].get("c", {}).get("int") == 16 and g is fn:
+                    s = D.src_local(t["args"][0])
+                    if s is not None and not s["p"]:
+                        acc.add(s["l"])
+                if n.endswith("char::methods::<impl char>::from_u32") or n.endswith("::from_u32"):
+                    from_u32 += 1
+                if n.endswith("::to_digit") and len(t["args"]) == 2 and t["args"][1].get("c", {}).get("int") == 16:
+                    digit16 += 1
+    loc = "%s:%d" % (fn.file, fn.line)
+    if not acc or not from_u32 or not digit16:
+        raise AnchorError("R18.3: escape accumulator not found in Lexer::next (acc=%s, from_u32=%d, to_digit(16)=%d)" % (acc, from_u32, digit16))
+    acc_names = {fn.local_name(l) for l in acc} - {None}
+    bad = []
+    for (bi, tt, ft, op, al, ac, bl, bc) in D._cmp_edges():
+        for l, c in ((al, bc), (bl, ac)):
+            if l is not None and c is not None and (l in acc or fn.local_name(l) in acc_names) and op in ("Lt", "Le", "Gt", "Ge") and 16 < c < 0x10FFF:
+                bad.append((c, fn.loc(fn.blocks[bi]["t"])))
+    if bad:
+        for c, l in bad:
+            R.violation("R18.3", "escape-accumulator/bound:%#x" % c, "the `\\u{..}` accumulator is compared with %#x: values up to 0x10FFF must still accept a further "
+                        "digit (six-digit escapes, U+100000..U+10FFFF, are written by the printer), so such characters no longer round-trip" % c, l)
+    else:
+        R.ok("R18.3", "escape-accumulator", "range decided by char::from_u32 only (accumulator locals %s)" % sorted(acc_names or acc), loc, how="constant-guards")
+
+
+def r18_4(F, R):
+    from ..cfg import normal_exit_avoiding
+    from .common import fmt_path
+    R.rule("R18.4", "pretty printer mode switch: ArgsPrinter::activate_multiline sets `multiline` on every path that returns Ok — comments and lists rely on "
+                    "the following arguments being printed one per line; if the switch is skipped the closing parenthesis lands inside a comment and the "
+                    "formatted text parses differently")
+    fn = [f for f in F.fns.values() if strip_generics(f.name) == "boxworks::lang::cst::ArgsPrinter::activate_multiline"]
+    if len(fn) != 1:
+        raise AnchorError("R18.4: activate_multiline: %d matches" % len(fn))
+    fn = fn[0]
+    ev = set()
+    for bi, b in enumerate(fn.blocks):
+        for st in b["s"]:
+            if st["k"] == "=" and st["lhs"]["p"] and isinstance(st["lhs"]["p"][-1], dict) and st["lhs"]["p"][-1].get("n") == "multiline" \
+                    and st["rv"]["k"] == "use" and st["rv"]["op"].get("c", {}).get("int") == 1:
+                ev.add(bi)
+    if not ev:
+        raise AnchorError("R18.4: no `self.multiline = true` in activate_multiline")
+    path = normal_exit_avoiding(fn, ev)
+    loc = "%s:%d" % (fn.file, fn.line)
+    if path and 0 not in ev:
+        R.violation("R18.4", "activate_multiline", "activate_multiline can return Ok without switching to multi-line mode (%s)" % fmt_path(fn, path), loc)
+    else:
+        R.ok("R18.4", "activate_multiline", "`multiline = true` on every normal path", loc, how="must-pass-through")
+
+
+def r18_5(F, R):
+    from ..facts import callee_name
+    from ..cfg import Defs, field_path
+    R.rule("R18.5", "box lexer cursor discipline (the byte offset `self.l` is what every span and every later `self.s[self.l..]` slice is built from): after a "
+                    "character has been taken from the look-ahead iterator, the iterator is not advanced again before `self.l` has been moved (`self.l += "
+                    "c.len_utf8()`); an unaccounted character is only allowed as the last thing read before the token is returned. Otherwise every later "
+                    "offset is short by that character and slicing can land inside a multi-byte character")
+    names = ["<boxworks::lang::lexer::Lexer as core::iter::traits::iterator::Iterator>::next", "boxworks::lang::lexer::Lexer::parse_number"]
+    total = 0
+    for nm in names:
+        fn = [f for f in F.fns.values() if strip_generics(f.name) == nm]
+        if len(fn) != 1:
+            raise AnchorError("R18.5: %s: %d matches" % (nm, len(fn)))
+        fn = fn[0]
+        nexts = [bi for bi, t in fn.calls() if strip_generics(callee_name(t) or "") == "<core::str::iter::Chars as core::iter::traits::iterator::Iterator>::next"]
+        # blocks that move the cursor: a store to the field `l` of self
+        moves = set()
+        for bi, b in enumerate(fn.blocks):
+            for st in b["s"]:
+                if st["k"] == "=" and (field_path(st["lhs"]) or [None])[-1] == "l" and st["lhs"]["l"] == 1:
+                    moves.add(bi)
+        # the whitespace loop re-creates its iterator from self.s[self.l..] on every round: calls to `chars()` reset the discipline
+        resets = {bi for bi, t in fn.calls() if strip_generics(callee_name(t) or "").endswith("<impl str>::chars")}
+        total += len(nexts)
+        inst = nm.split("::")[-1] if "parse_number" in nm else "Lexer::next"
+        bad = None
+        for bi in nexts:
+            t = fn.blocks[bi]["t"]
+            start = t.get("t")
+            if start is None:
+                continue
+            path = find_path(fn, [start], lambda x: x in nexts, blocked=moves | resets)
+            if path:
+                bad = (bi, path)
+                break
+        loc = "%s:%d" % (fn.file, fn.line)
+        if bad:
+            from .common import fmt_path
+            R.violation("R18.5", inst, "%s reads a character at %s and can read the next one without having advanced `self.l` (%s)" % (
+                nm, fn.loc(fn.blocks[bad[0]]["t"]), fmt_path(fn, bad[1][:6])), fn.loc(fn.blocks[bad[0]]["t"]))
+        else:
+            R.ok("R18.5", inst, "%d look-ahead reads, %d cursor moves; no read-read path without a move" % (len(nexts), len(moves)), loc, how="path")
+    R.floor("R18.5", "look-ahead reads in the box lexer", total, 8)
+
+
+def _char_consts(fn):
+    """character constants a function distinguishes: switch targets on char-typed operands and Eq/Ne comparisons with char constants"""
+    from ..dataflow import op_place
+    out = set()
+    for b in fn.blocks:
+        for st in b["s"]:
+            if st["k"] == "=" and st["rv"]["k"] == "bin" and st["rv"]["op"] in ("Eq", "Ne", "Le", "Ge", "Lt", "Gt"):
+                for o in (st["rv"]["a"], st["rv"]["b"]):
+                    c = o.get("c", {})
+                    if c.get("ty") == "char" and "int" in c:
+                        out.add(c["int"])
+        t = b["t"]
+        if t["k"] == "switch":
+            p = op_place(t["op"])
+            if p is not None and (fn.local_ty(p["l"]) == "char" if not p["p"] else (isinstance(p["p"][-1], dict) and p["p"][-1].get("t") == "char")):
+                for v, _ in t["ts"]:
+                    out.add(v)
+    return out
+
+
+def r18_6(F, R):
+    R.rule("R18.6", "the two scanners of the box language agree on what is inside a string: Lexer::build (bracket matching) distinguishes every character "
+                    "that delimits a unit for Lexer::next — brackets, '#', newline, '\"', '\\' and, because next reads `\\u{`..`}` as one unit, also 'u', "
+                    "'{' and '}'. If build ends a string where next does not, brackets inside strings get paired and a bracket's recorded closing position "
+                    "can lie behind the cursor (slice start > end)")
+    build = [f for f in F.fns.values() if strip_generics(f.name) == "boxworks::lang::lexer::Lexer::build"]
+    nxt = [f for f in F.fns.values() if strip_generics(f.name) == "<boxworks::lang::lexer::Lexer as core::iter::traits::iterator::Iterator>::next"]
+    if len(build) != 1 or len(nxt) != 1:
+        raise AnchorError("R18.6: Lexer::build / Lexer::next not found")
+    cb, cn = _char_consts(build[0]), _char_consts(nxt[0])
+    need = {ord(c) for c in '()[]#\n"\\'}
+    if ord("}") in cn:
+        need |= {ord("u"), ord("{"), ord("}")}
+    loc = "%s:%d" % (build[0].file, build[0].line)
+    if not ({ord('"'), ord("\\")} <= cn):
+        raise AnchorError("R18.6: Lexer::next does not compare with '\"' and '\\' (constants: %s)" % sorted(cn))
+    missing = need - cb
+    if missing:
+        R.violation("R18.6", "Lexer::build/delimiters", "Lexer::build does not distinguish %s, which Lexer::next treats as delimiters inside strings" % sorted(map(chr, missing)), loc)
+    else:
+        R.ok("R18.6", "Lexer::build/delimiters", "build distinguishes %s" % sorted(map(chr, need)), loc, how="table-agreement")
 
 
 def run(F, R, tier):
     r18_1(F, R)
+    r18_6(F, R)
+    r18_5(F, R)
+    r18_3(F, R)
+    r18_4(F, R)
     r18_2(F, R, tier)
     return ("Static analysis (partial claim). Decided: the ds<->AST converters cover every field and every variant in both directions (audited drops only, "
             "each tied to the property's stated exclusions), and explicit panic / unwrap sites reachable from the parser, formatter and printers are "
